@@ -31,7 +31,7 @@ type c12case struct {
 
 func main() {
 	rep := kit.NewReport("C12", "exploration",
-		"every subset of size <=3 (thorough 4) of 19 wrapping directive lines (at most one line per directive) around a scripted innermost handler x ~80 inner behaviours (return any of 7 statuses with/without error and without writing; write any of 4 statuses x 7 bodies through Write, io.WriteString or io.Copy with optional flush then return (0, nil|err); flush first; Early Hints; internal redirect loops with and without a flush; a template failing at execution; panic before/after writing) x 4 paths x 2 Accept-Encoding, followed by a plain request after every panic; every plain 200 also requested with 7 conditional and range headers (the answer may be 200, 206, 304, 412 or 416 but must be well formed for that status); strict response writer counts header commits; distinct_nontrivial = outcome classes")
+		"every subset of size <=3 (thorough 4) of 20 wrapping directive lines (at most one line per directive) around a scripted innermost handler x ~80 inner behaviours (return any of 7 statuses with/without error and without writing; write any of 4 statuses x 7 bodies through Write, io.WriteString or io.Copy with optional flush then return (0, nil|err); flush first; Early Hints; internal redirect loops with and without a flush; a template failing at execution; panic before/after writing) x 4 paths x {no Accept-Encoding, gzip, an empty Host header}, followed by a plain request after every panic; every plain 200 also requested with 7 conditional and range headers (the answer may be 200, 206, 304, 412 or 416 but must be well formed for that status); strict response writer counts header commits; distinct_nontrivial = outcome classes")
 	kit.Init()
 	kit.RegisterProbe()
 	kit.Log.Off.Store(true)
@@ -44,6 +44,7 @@ func main() {
 	pgen := filepath.Join(root, "generic.html")
 	menu := []string{
 		"log / " + filepath.Join(root, "access.log"),
+		"log / " + filepath.Join(root, "access2.log") + " \"{hostonly} {host} {port} {method} {uri} {status} {>User-Agent} {~c} {?q}\"", // (placeholders evaluated after the response)
 		"gzip",
 		"gzip {\n\t\tmin_length 1\n\t}",
 		"header / X-H v",
@@ -129,6 +130,10 @@ func main() {
 	tplErr := `{{.Include "missing-file"}}`
 	behaviours = append(behaviours,
 		behaviour{name: "write(200,template-that-fails-at-execution,Content-Length set)", script: fmt.Sprintf("hdr:Content-Length=%d;status:200;write:%s;ret:0", len(tplErr), tplErr), wrote: true, status: 200, body: tplErr})
+	// the body handed over through the writer's optional methods without any WriteHeader before
+	behaviours = append(behaviours,
+		behaviour{name: "copy(5k)-without-WriteHeader+return(0,nil)", script: "copy:5000xt;ret:0", wrote: true, status: 200, body: big},
+		behaviour{name: "writestring(x)-without-WriteHeader+return(0,nil)", script: "wstr:x;ret:0", wrote: true, status: 200, body: "x"})
 	behaviours = append(behaviours,
 		behaviour{name: "panic-before-writing", script: "panic", panics: "before"},
 		behaviour{name: "panic-after-writing", script: "status:200;write:x;panic", panics: "after", wrote: true, status: 200, body: "x"},
@@ -150,7 +155,8 @@ func main() {
 			lines = append(lines, "\t"+menu[i])
 			has[strings.Fields(menu[i])[0]] = menu[i]
 		}
-		cf := fmt.Sprintf("a.test:8080 {\n\troot %s\n%s\n\tverif_probe\n}\n", root, strings.Join(lines, "\n"))
+		// (a catch-all site: it also answers requests that name no host at all)
+		cf := fmt.Sprintf(":8080 {\n\troot %s\n%s\n\tverif_probe\n}\n", root, strings.Join(lines, "\n"))
 		l, err := kit.Load(cf, filepath.Join(root, "..", "Casketfile-c12"))
 		if err != nil {
 			rep.Broken("load: %v\n%s", err, cf)
@@ -169,7 +175,11 @@ func main() {
 		visible := strings.Contains(has["errors"], "visible")
 		for _, b := range behaviours {
 			for _, p := range paths {
-				for _, ae := range []string{"", "gzip"} {
+				for _, ae := range []string{"", "gzip", "no-host"} {
+					host := "a.test:8080"
+					if ae == "no-host" {
+						ae, host = "", "" // (an empty Host header)
+					}
 					hdr := []string{"X-Probe: " + b.script}
 					if p == "/t.html" && b.wrote {
 						hdr[0] = "X-Probe: hdr:Content-Type=text/html;" + b.script
@@ -177,7 +187,7 @@ func main() {
 					if ae != "" {
 						hdr = append(hdr, "Accept-Encoding: "+ae)
 					}
-					raw := kit.Get("GET", p, "a.test:8080", hdr...)
+					raw := kit.Get("GET", p, host, hdr...)
 					rec, pv, _ := kit.Serve(srv, raw)
 					rep.Eval(1)
 					if real != nil && pv == nil {
